@@ -680,5 +680,5 @@ GRAMMAR_FAMILIES_NOT_COVERED = [
 
 
 def regions(rng, tier):
-    nrp, nrm = (6, 4) if tier == "quick" else (40, 24)
+    nrp, nrm = (6, 4) if tier == "quick" else (24, 16)
     return param_directed() + param_random(rng, nrp) + multi_directed() + multi_random(rng, nrm) + grammar_directed() + grammar_refused()
